@@ -134,7 +134,55 @@ package core
 
 // ---------------------------------------------------------------- metadata state (C02, C06; used by C12 call sites)
 
-//@ func core.Metadata.getState property C02
+// mdState(dom(contents)): the documented precedence of sentinel files.
+
+//@ func core.Metadata._removeNoLock property C02 C06
+//@   modifies mapof(self.contents), mapof(self.readCache)
+//@   ensures forall k string :: has(self.contents, k) == (old(has(self.contents, k)) && k != name)
+
+//@ func core.Metadata._getStateNoLock property C02 C03 C05 C06
+//@   uses mdstate
+//@   modifies mapof(self.contents), mapof(self.readCache)
+//@   ensures @state result.0 == mdState(old(dom(self.contents)))
+//@   ensures @ok result.1 == (mdState(old(dom(self.contents))) != "")
+//@   ensures @stable forall m *core.Metadata :: mdState(dom(m.contents)) == mdState(old(dom(m.contents)))
+//@   ensures @failwins old(has(self.contents, "errors")) || old(has(self.contents, "assert")) ==> result.0 == "failed"
+
+//@ func core.Metadata.getState property C02 C03 C05 C06
+//@   uses mdstate
+//@   modifies mapof(self.contents), mapof(self.readCache), held(self.mutex)
+//@   ensures @state result.0 == mdState(old(dom(self.contents)))
+//@   ensures @ok result.1 == (mdState(old(dom(self.contents))) != "")
+//@   ensures @stable forall m *core.Metadata :: mdState(dom(m.contents)) == mdState(old(dom(m.contents)))
+
+//@ func core.Chunk.getState property C02 C03 C05 C06
+//@   uses mdstate
+//@   modifies mapof(self.metadata.contents), mapof(self.metadata.readCache), held(self.metadata.mutex)
+//@   ensures @state result == (mdState(old(dom(self.metadata.contents))) == "" ? "ready" : mdState(old(dom(self.metadata.contents))))
+//@   ensures @stable forall m *core.Metadata :: mdState(dom(m.contents)) == mdState(old(dom(m.contents)))
+
+//@ func core.Fork.getState property C02 C03 C05 C06
+//@   uses mdstate
+//@   opt deterministic on
+//@   let fs = mdState(old(dom(self.metadata.contents)))
+//@   let js = mdState(old(dom(self.join_metadata.contents)))
+//@   let ss = mdState(old(dom(self.split_metadata.contents)))
+//@   let terminal = fs == "failed" || fs == "complete" || fs == "disabled"
+//@   ensures @stable forall m *core.Metadata :: mdState(dom(m.contents)) == mdState(old(dom(m.contents)))
+//@   ensures @terminal terminal ==> result == fs
+//@   ensures @complete result == "complete" ==> fs == "complete"
+//@   ensures @disabled result == "disabled" ==> fs == "disabled"
+//@   ensures @joinfailed !terminal && js == "failed" ==> result == "failed"
+//@   ensures @join result == "join_complete" ==> !terminal && js == "complete"
+//@   ensures @chunkscomplete result == "chunks_complete" ==> !terminal && js == "" && len(self.chunks) > 0 && forall j :: 0 <= j && j < len(self.chunks) ==> mdState(old(dom(self.chunks[j].metadata.contents))) == "complete"
+//@   ensures @chunkfailed !terminal && js == "" && (exists j :: 0 <= j && j < len(self.chunks) && mdState(old(dom(self.chunks[j].metadata.contents))) == "failed") ==> result == "failed"
+//@   ensures @split result == "split_complete" ==> !terminal && js == "" && ss == "complete"
+//@   ensures @splitfailed !terminal && js == "" && len(self.chunks) == 0 && ss == "failed" ==> result == "failed"
+//@   ensures @ready result == "ready" ==> !terminal && js == "" && ss == ""
+//@   loop 1 invariant 0 <= iter && iter <= len(self.chunks)
+//@   loop 1 invariant forall m *core.Metadata :: mdState(dom(m.contents)) == mdState(old(dom(m.contents)))
+//@   loop 1 invariant forall j :: 0 <= j && j < iter ==> mdState(old(dom(self.chunks[j].metadata.contents))) != "failed"
+//@   loop 1 invariant complete ==> forall j :: 0 <= j && j < iter ==> mdState(old(dom(self.chunks[j].metadata.contents))) == "complete"
 
 // Request clamping (integer part; float rounding is treated as real arithmetic).
 //@ func core.LocalJobManager.GetSystemReqs property C12
@@ -144,3 +192,24 @@ package core
 //@   ensures @cores result.Threads <= self.maxCores
 //@   ensures @mem result.MemGB * 1024 <= self.maxMemGB * 1024
 //@   ensures @vmem self.maxVmemMB > 0 && self.maxVmemMB >= self.maxMemGB * 1024 ==> result.VMemGB * 1024 <= self.maxVmemMB
+
+//@ iface core.Nodable.getNode property C02
+//@   pure
+//@   opt deterministic on
+
+// Node.getState: running only if every prenode is complete or disabled;
+// complete only if every fork is complete or disabled; a failed fork (before
+// the first unfinished one) fails the node.
+//@ func core.Node.getState property C02 C06
+//@   uses mdstate
+//@   opt deterministic on
+//@   ensures @stable forall m *core.Metadata :: mdState(dom(m.contents)) == mdState(old(dom(m.contents)))
+//@   ensures @running result == "running" ==> forall k string :: has(self.prenodes, k) ==> (fn(core.Node.getState, fn(core.Nodable.getNode, self.prenodes[k])) == "complete" || fn(core.Node.getState, fn(core.Nodable.getNode, self.prenodes[k])) == "disabled")
+//@   ensures @complete result == "complete" || result == "disabled" ==> forall j :: 0 <= j && j < len(self.forks) ==> (fn(core.Fork.getState, self.forks[j]) == "complete" || fn(core.Fork.getState, self.forks[j]) == "disabled")
+//@   ensures @failed (exists j :: 0 <= j && j < len(self.forks) && fn(core.Fork.getState, self.forks[j]) == "failed" && forall i :: 0 <= i && i < j ==> (fn(core.Fork.getState, self.forks[i]) == "complete" || fn(core.Fork.getState, self.forks[i]) == "disabled")) ==> result == "failed"
+//@   ensures @values result == "failed" || result == "complete" || result == "disabled" || result == "" || result == "running"
+//@   loop 1 invariant 0 <= iter && iter <= len(self.forks)
+//@   loop 1 invariant forall m *core.Metadata :: mdState(dom(m.contents)) == mdState(old(dom(m.contents)))
+//@   loop 1 invariant forall j :: 0 <= j && j < iter ==> (fn(core.Fork.getState, self.forks[j]) == "complete" || fn(core.Fork.getState, self.forks[j]) == "disabled")
+//@   loop 2 invariant forall m *core.Metadata :: mdState(dom(m.contents)) == mdState(old(dom(m.contents)))
+//@   loop 2 invariant forall k string :: visited(k) ==> (fn(core.Node.getState, fn(core.Nodable.getNode, self.prenodes[k])) == "complete" || fn(core.Node.getState, fn(core.Nodable.getNode, self.prenodes[k])) == "disabled")
